@@ -43,6 +43,8 @@ def child_main(argv: list[str]) -> int:
     rec.cls("package_loggers_enabled_for:" + os.environ.get("VMON_LOGLEVEL", "DEBUG"))
     if os.environ.get("VMON_QUIET_START"):
         rec.cls("process_started_with_a_quiet_bulk_parse")
+    if os.environ.get("VMON_WORN_START"):
+        rec.cls("process_with_a_past:hundreds_of_charts_and_reports_before_the_workload")
     ambient = set(filter(None, os.environ.get("VMON_AMBIENT", "").split(",")))
     if "decimal" in ambient:
         import decimal
@@ -366,6 +368,8 @@ def main(argv: list[str]) -> int:
         e.setdefault("VMON_LOGLEVEL", "WARNING" if (k + seed) % 2 else "DEBUG")
         if (k + seed) % 4 == 1:  # every fourth process begins with a quiet bulk import (harness.quiet_start)
             e.setdefault("VMON_QUIET_START", "1")
+        if (k + seed) % 3 == 2:  # every third process has a past: hundreds of charts read, hundreds of reports made (harness.worn_start)
+            e.setdefault("VMON_WORN_START", "1")
         sh["env"] = e
     shards = shards + config_variants(pid, shards, seed, tier)
     watchdog = getattr(prop, "WATCHDOG", {"quick": 900, "thorough": 5400})[tier]
